@@ -153,6 +153,29 @@ MUST_RETURN = ('whittaker(Toth)', 'isosteric_enthalpy', 'alpha_s', 'area_langmui
                'area_BET', 't_plot', 'psd_meso', 'psd_dft', 'dr_plot', 'to_json', 'to_csv')
 
 
+# module-level containers that are caches by design (filled on first use, invisible afterwards: covered by the pair clauses)
+CACHE_ALLOW = ('pygaps.characterisation.psd_kernel._LOADED',)
+
+
+def _module_containers():
+    """repr of every module-level list / dict / set of the pygaps modules (registries, model lists, tables, caches)"""
+    import sys
+    out = {}
+    for mn, mod in list(sys.modules.items()):
+        if mn.split('.')[0] != 'pygaps' or mod is None:
+            continue
+        for k, v in list(vars(mod).items()):
+            if k.startswith('__') or not isinstance(v, (list, dict, set)):
+                continue
+            if getattr(v, '__module__', None) and False:
+                continue
+            try:
+                out[f"{mn}.{k}"] = (len(v), hash(repr(v)[:20000]))
+            except Exception:
+                out[f"{mn}.{k}"] = (len(v), None)
+    return out
+
+
 def _process_state_worker():
     """every quantified kind of call (data access, interpolation, spreading pressure, export, characterisation, model fitting, IAST,
     enthalpy methods) leaves the interpreter-wide settings as they were -- warnings filters, numpy error state and print options,
@@ -186,6 +209,7 @@ def _process_state_worker():
         'psd_microporous': lambda i: pgc.psd_microporous(i, psd_model='HK')['pore_widths'],
         'iast_point': lambda i: pgi.iast_point(lang, [0.1, 0.2], warningoff=True),
         'model_iso(guess list)': lambda i: pgm.model_iso(i, model=['Henry', 'Langmuir'], verbose=False).model.name,
+        'model_iso(guess)': lambda i: pgm.model_iso(i, model='guess', verbose=False).model.name,
         'to_aif': lambda i: i.to_aif(),
     })
     # who changes the warnings filters / numpy error state: calls made by numpy / scipy / pandas while they are first imported are
@@ -208,9 +232,20 @@ def _process_state_worker():
         for name, f in Q.items():
             del log[:]
             before = _process_state()
+            c0 = _module_containers()
             out = _run(f, _twin(iso))
             after = _process_state()
+            c1 = _module_containers()
+            _run(f, _twin(iso))
+            c2 = _module_containers()
             diff = [k for k in before if before[k] != after[k]]
+            # module-level containers of the library: unchanged by the call, except declared caches, which may be filled by the
+            # first call but must then stay as they are
+            grown = [k for k in c2 if c1.get(k) != c2.get(k)] + [k for k in c1 if c0.get(k) != c1.get(k) and k not in CACHE_ALLOW]
+            if grown:
+                yield {'name': f"process_state_unchanged|{name}", 'ok': False,
+                       'detail': f"module-level container changed by the call: {sorted(set(grown))[:3]} (sizes {[(c0.get(k, ('-',))[0], c1.get(k, ('-',))[0], c2.get(k, ('-',))[0]) for k in sorted(set(grown))[:3]]})"}
+                continue
             own = [c for c in log if c[1].split('.')[0] == 'pygaps']
             # (a change of the filters / numpy settings counts when pyGAPS code made the call that is still in effect afterwards)
             diff = [k for k in diff if k not in ('warnings.filters', 'numpy.geterr', 'numpy.printoptions') or own]
